@@ -51,8 +51,8 @@ RULE = ("scripted directory histories on real temp directories under PYTHONHASHS
         "predict differently (the history exercises behaviour the fix changed)")
 
 
-def _mode_seeds(seed: int):
-    return [("unset", None), ("s0", 0), ("sother", 1 + (seed * 7919 + 4242) % 4000000000)]
+def _mode_seeds(seed):
+    return [("unset", None), ("s0", 0), ("sother", 1 + (seed * 7919 + 4242) % 4000000000), ("random", "random")]
 
 
 def _one_mode(chk, mode, hashseed, budget):
@@ -96,11 +96,13 @@ def run(chk):
     proofs_ok = chk.compile_chain([], ["C16_lemmas.v"], "C16.v", timeout=900)
     budget = "full" if proofs_ok else "deep"
     modes = _mode_seeds(chk.seed)
-    with ThreadPoolExecutor(max_workers=3) as ex:
-        results = list(ex.map(lambda m: _one_mode(chk, m[0], m[1], budget), modes))
+    with ThreadPoolExecutor(max_workers=4) as ex:
+        results = list(ex.map(lambda m: _one_mode(chk, m[0], m[1],
+                                                  "lite" if (m[0] == "random" and budget == "full") else budget), modes))
 
     n_calls = n_hist = n_nontrivial = 0
     fams, samples, failures, notes = {}, [], [], []
+    unpicklable, env_checked = set(), 0
     for (mode, hashseed), r in zip(modes, results):
         if "error" in r:
             item, out = r["error"]
@@ -115,7 +117,10 @@ def run(chk):
                             run_["hammer"], run_["wall"]))
             if mode == "unset" and not any(c[2] for c in run_["key_collisions"]):
                 notes.append("NOTE: no key collision observed with PYTHONHASHSEED unset (get_readable_hash changed?)")
+        if run_ and run_.get("unpicklable"):
+            unpicklable.update(run_["unpicklable"])
         if diff:
+            env_checked += diff.get("env_values_checked", 0)
             n_hist += diff["histories"]
             n_nontrivial += diff["distinct_nontrivial"]
             failures += diff["failures"]
@@ -127,6 +132,15 @@ def run(chk):
             notes.append("mode %s: %d histories, implementation = Robust model on %d, = Pinned model on %d, "
                          "variants differ on %d" % (mode, diff["histories"], diff["matches_robust"],
                                                     diff["matches_pinned"], diff["variants_differ"]))
+    notes.append("PYTHONHASHSEED values assigned at run time, real _get_python_hash_seed vs Gallina hash_mode: %d comparisons"
+                 % env_checked)
+    if unpicklable:
+        what = ("perform_cached_doit raises (PicklingError/AttributeError from pickle.dump, after doit() succeeded) for expressions "
+                "whose non-SymPy attribute cannot be pickled: kinds %s (e.g. EnergyDependentWidth(..., phsp_factor=<lambda or closure>))"
+                % sorted(unpicklable))
+        notes.append("CANDIDATE FINDING (not raised as a violation: not caused by the directory's contents): " + what)
+        if any(f.get("property") == "C16" and f.get("signature") == "unpicklable_expression_raises" for f in chk.findings):
+            chk.violation("unpicklable_expression_raises", what, {"case": {"kind": "attrpair", "pair": "lambda"}}, True)
     chk.notes += notes
     chk.add_cases(n_calls, n_nontrivial, samples, RULE)
     chk.cov["traces_validated_against_impl"] = n_hist
